@@ -90,31 +90,40 @@ Definition row_ref (x : srow) : result sref :=
   match row_view t x with Some v => Ok (vc_ref v) | None => Err (Crash IndexError) end.
 
 (* the first loop: stop at the first SEG row of that name (`break`: the groups seen so far are
-   not visited), otherwise collect the GRP rows in order *)
-Fixpoint scan_rows (name : str) (rows : list srow) (groups : list (str * sref))
-  : result (option sref * list (str * sref)) :=
+   not visited), otherwise collect the GRP rows in order.  A GRP row is resolved against the tables
+   when it is visited (Python holds the nested tuple; nothing observable happens in between). *)
+Definition row_name_kind (x : srow) : option (kind * str) :=
+  match x with SByName k n _ _ | SIn k n _ _ _ => Some (k, n) | SRowBad => None end.
+
+Fixpoint scan_rows (name : str) (rows : list srow) (groups : list srow)
+  : result (option sref * list srow) :=
   match rows with
   | [] => Ok (None, rev groups)
-  | SRowBad :: _ => Err (Crash IndexError)                       (* c[3] of a malformed row *)
-  | (SByName k n _ _ as x) :: rest | (SIn k n _ _ _ as x) :: rest =>
-      match k with
-      | SEG => if streqb n name then do r <- row_ref x; Ok (Some r, [])
-               else scan_rows name rest groups
-      | GRP => do r <- row_ref x; scan_rows name rest ((n, r) :: groups)
-      | _ => scan_rows name rest groups
+  | x :: rest =>
+      match row_name_kind x with
+      | None => Err (Crash IndexError)                           (* c[3] of a malformed row *)
+      | Some (SEG, n) => if streqb n name then do r <- row_ref x; Ok (Some r, [])
+                         else scan_rows name rest groups
+      | Some (GRP, _) => scan_rows name rest (x :: groups)
+      | Some (_, _) => scan_rows name rest groups
       end
   end.
 
 (* `for g in groups: append; recurse; if found break else pop` *)
 Fixpoint try_groups (rec : sref -> result (option (sref * list (str * sref))))
-         (gs : list (str * sref)) : result (option (sref * list (str * sref))) :=
+         (gs : list srow) : result (option (sref * list (str * sref))) :=
   match gs with
   | [] => Ok None
-  | (g, gr) :: rest =>
-      do x <- rec gr;
-      match x with
-      | Some (sr, ex) => Ok (Some (sr, (g, gr) :: ex))
-      | None => try_groups rec rest
+  | x :: rest =>
+      match row_name_kind x with
+      | None => Err (Crash IndexError)
+      | Some (_, g) =>
+          do gr <- row_ref x;
+          do y <- rec gr;
+          match y with
+          | Some (sr, ex) => Ok (Some (sr, (g, gr) :: ex))
+          | None => try_groups rec rest
+          end
       end
   end.
 
@@ -206,6 +215,7 @@ Variable nm : A -> str.                                (* segment.name *)
 (* parent.add(child) for a Group parent: (name, reference, structure) of the parent, names of the
    children it has, name of the new child *)
 Variable admit : str * sref * structure -> list str -> str -> result unit.
+Variable root : sref.                                  (* the `references` argument *)
 
 Record gstate := mk_gstate { g_stack : list entry; g_path : list nat; g_forest : gforest A }.
 
@@ -265,9 +275,7 @@ Definition after_found (x : X) (sr : sref) (s : gstate) : result gstate :=
     (match c with
      | None =>
          if opt_is_some (fst top) then
-           do root <- (match g_stack s with e :: _ => Ok e | [] => Err (Crash IndexError) end);
-           (* parents_refs.index((None, references)): `references` is the bottom entry's reference *)
-           match index_of (None, snd root) (g_stack s) 0 with
+           match index_of (None, root) (g_stack s) 0 with
            | Some i => open_groups s (skipn (S i) (g_stack s))
            | None => Err PyValueError
            end
@@ -320,9 +328,9 @@ Fixpoint run (xs : list X) (s : gstate) : result gstate :=
   | x :: r => do s' <- step s x; run r s'
   end.
 
-Definition init_state (root : sref) : gstate := mk_gstate [(None, root)] [] [].
-Definition find_groups (root : sref) (xs : list X) : result (gforest A) :=
-  do s <- run xs (init_state root); Ok (g_forest s).
+Definition init_state : gstate := mk_gstate [(None, root)] [] [].
+Definition find_groups (xs : list X) : result (gforest A) :=
+  do s <- run xs init_state; Ok (g_forest s).
 End Loop.
 Arguments mk_gstate {A}. Arguments g_stack {A}. Arguments g_path {A}. Arguments g_forest {A}.
 
